@@ -41,7 +41,7 @@ Definition res_eqb (a b : res) : bool :=
 (* ---------- finding classes ----------
    1 byte / rune offsets where ES5 counts UTF-16 units
    2 lone surrogates (and halves of a pair) are not representable: they become U+FFFD
-   3 U+FFFD doubles as the "out of range" sentinel of charAt / charCodeAt / s[i]
+   3 U+FFFD doubles as the "out of range" sentinel of charAt / charCodeAt (s[i] repaired by 66edf49)
    4 (fixed 8a02cb3, no longer produced) charAt / charCodeAt receivers that are not String objects
    5 undefined this is replaced by the global object (Function.prototype.call / apply)
    6 lastIndexOf: NaN position taken as 0, -Infinity as +Infinity
@@ -78,7 +78,7 @@ Definition classify (m : meth) (r : recv) (args : list arg) : Z :=
                            (is_nan_bits b || (b =? ninf_bits))
                | None => false end) then 6
       else if has_lone (recv_units r) || existsb arg_lone args then 2
-      else if is_indexy m && has_fffd (recv_units r) then 3
+      else if is_charm m && has_fffd (recv_units r) then 3
       else if res_has_sur (call_spec m r args) then 2
       else 1
   end.
